@@ -37,6 +37,9 @@ type SortNodeOp struct {
 	Tree     []SortKV `json:"tree"`
 	Current  []SortKV `json:"current"`
 	ResSet   []int    `json:"resset"`
+	Cap      sortRes  `json:"cap,omitempty"`   // capacity / available of the touched node after the op
+	Avail    sortRes  `json:"avail,omitempty"`
+	Touched  bool     `json:"touched,omitempty"`
 	NaN      bool     `json:"nan,omitempty"`
 }
 type SortNodeCase struct {
@@ -170,6 +173,7 @@ func runSortNodeCase(c *SortNodeCase) {
 	for i := range c.Ops {
 		op := &c.Ops[i]
 		op.Kind, op.Scores, op.Reserved, op.NaN = "", nil, false, false
+		op.Cap, op.Avail, op.Touched = nil, nil, false
 		n := w.nodes[op.Node]
 		switch op.Op {
 		case "add":
@@ -194,6 +198,7 @@ func runSortNodeCase(c *SortNodeCase) {
 			op.Scores, nan = w.scores(n)
 			op.NaN = op.NaN || nan
 			op.Reserved = n.IsReserved()
+			op.Cap, op.Avail, op.Touched = sortFromRes(n.GetCapacity()), sortFromRes(n.GetAvailableResource()), true
 		}
 		w.observe(op)
 	}
@@ -397,11 +402,33 @@ func (c *SortNodeCase) coq() string {
 		default:
 			o = fmt.Sprintf("ONode %d %s %s %s", op.Node, op.Kind, sortCoqScores(op.Scores), coqBool(op.Reserved))
 		}
-		obs := fmt.Sprintf("mkObs %s %s %s %s %s %s", sortCoqIDs(op.Full), sortCoqIDs(op.Unres), sortCoqKVs(op.Cached, false),
-			sortCoqKVs(op.Tree, true), sortCoqKVs(op.Current, false), sortCoqIDs(op.ResSet))
+		obs := fmt.Sprintf("mkObs %s %s %s %s %s %s %s %s %s", sortCoqIDs(op.Full), sortCoqIDs(op.Unres), sortCoqKVs(op.Cached, false),
+			sortCoqKVs(op.Tree, true), sortCoqKVs(op.Current, false), sortCoqIDs(op.ResSet), sortCoqRes(op.Cap), sortCoqRes(op.Avail), coqBool(op.Touched))
 		items = append(items, "("+o+", "+obs+")")
 	}
 	return fmt.Sprintf("(%d%%nat, %s)", c.Policy, "[\n    "+strings.Join(items, ";\n    ")+"]")
+}
+
+// the policy table as a Gallina term (weights are small integers)
+func sortCoqPolicies() string {
+	items := make([]string, len(sortPolicies))
+	for i, p := range sortPolicies {
+		kind := 2
+		switch p.typ {
+		case "fair":
+			kind = 0
+		case "binpacking":
+			kind = 1
+		}
+		ws := []string{}
+		for _, name := range sortResNames {
+			if w, ok := p.weights[name]; ok {
+				ws = append(ws, fmt.Sprintf("(%d%%N, %s)", sortTid(name), coqZ(int64(w))))
+			}
+		}
+		items[i] = fmt.Sprintf("mkPol %d%%N [%s]", kind, strings.Join(ws, "; "))
+	}
+	return "[" + strings.Join(items, "; ") + "]"
 }
 
 func (c *SortNodeCase) hasNaN() bool {
